@@ -6,6 +6,7 @@ import (
 	"fmt"
 	"os"
 	"path/filepath"
+	"sort"
 	"strings"
 
 	"github.com/cnotch/ipchub/provider/auth"
@@ -160,9 +161,9 @@ func userHistories(rep *report.Report) {
 		)
 	}
 	alphabet = append(alphabet, uop{kind: "flush"}, uop{kind: "reload"})
-	depth := 4
+	depth := 6
 	if rep.Thorough() {
-		depth = 5
+		depth = 8
 	}
 	type st struct{ mem, disk string }
 	seen := map[st]bool{}
@@ -176,24 +177,31 @@ func userHistories(rep *report.Report) {
 		mem := []mu{{"admin", "admin", true, "*", "*"}}
 		var disk []mu
 		hasDisk := false
+		dirty := false
 		ok := true
 		for i, o := range h {
 			switch o.kind {
 			case "save":
 				auth.Save(&auth.User{Name: o.name, Password: o.password, Admin: o.admin, PullAccess: o.pull, PushAccess: o.push}, o.withPw)
 				mem = applyU(mem, o)
+				dirty = true
 			case "del":
 				auth.Del(o.name)
+				n0 := len(mem)
 				mem = applyU(mem, o)
+				if len(mem) != n0 {
+					dirty = true
+				}
 			case "flush":
 				if err := auth.Flush(); err != nil {
 					rep.Violation("users flush-error", fmt.Sprintf("history %v: %v", h[:i+1], err), nil)
 					return st{}, false
 				}
-				// Flush writes only when something changed since the last flush
-				if keyU(mem) != keyU(disk) || !hasDisk {
+				// Flush writes when an edit happened since the last flush / load
+				if dirty {
 					disk = append([]mu(nil), mem...)
 					hasDisk = true
+					dirty = false
 				}
 			case "reload":
 				func() {
@@ -213,9 +221,27 @@ func userHistories(rep *report.Report) {
 				} else {
 					mem = []mu{{"admin", "admin", true, "*", "*"}}
 				}
+				dirty = false
 			}
 			if got := usersNow(); keyU(got) != keyU(mem) {
 				rep.Violation("users table-differs after-"+o.kind, fmt.Sprintf("history %v: table %v, expected %v", h[:i+1], got, mem), map[string]interface{}{"history": fmt.Sprint(h[:i+1])})
+				return st{}, false
+			}
+			// the file on disk must hold exactly the table as of the last flush (the state key merges
+			// histories by the model's disk table, so the real file has to agree with it in every state)
+			if b, err := os.ReadFile(file); err == nil {
+				var onDisk []*auth.User
+				json.Unmarshal(b, &onDisk)
+				var l []mu
+				for _, u := range onDisk {
+					l = append(l, mu{u.Name, u.Password, u.Admin, u.PushAccess, u.PullAccess})
+				}
+				if !hasDisk || keyU(l) != keyU(disk) {
+					rep.Violation("users file-differs-from-flushed-table after-"+o.kind, fmt.Sprintf("history %v: file holds %v, table as of the last flush is %v", h[:i+1], l, disk), map[string]interface{}{"history": fmt.Sprint(h[:i+1])})
+					return st{}, false
+				}
+			} else if hasDisk {
+				rep.Violation("users file-missing", fmt.Sprintf("history %v", h[:i+1]), nil)
 				return st{}, false
 			}
 			for _, m := range mem {
@@ -229,7 +255,7 @@ func userHistories(rep *report.Report) {
 		if hasDisk {
 			d = keyU(disk)
 		}
-		return st{keyU(mem), d}, true
+		return st{keyU(mem) + fmt.Sprint(dirty), d}, true
 	}
 	s0, _ := run(nil)
 	seen[s0] = true
@@ -379,7 +405,7 @@ func encodeUsers(t tableU) []byte {
 // of the operation log, under the stated model: namespace operations (create, truncate, rename,
 // remove) persist in order; data written to an inode since its last sync may be absent,
 // complete, or cut at {1, half, len-1} bytes.
-func crashStates(initial map[string][]byte, ops []vos.Op, path string, emit func(desc string, exists bool, content []byte)) {
+func crashStates(initial map[string][]byte, ops []vos.Op, path string, emit func(desc string, exists bool, content []byte, disk map[string][]byte)) {
 	type ino struct {
 		durable []byte
 		pending []byte // bytes appended since the last sync (this code only appends)
@@ -439,19 +465,48 @@ func crashStates(initial map[string][]byte, ops []vos.Op, path string, emit func
 		if k > 0 {
 			opDesc = fmt.Sprintf("after op %d (%s %s)", k-1, ops[k-1].Kind, filepath.Base(ops[k-1].Path))
 		}
-		id, ok := ns[path]
-		if !ok {
-			emit(opDesc+": file absent", false, nil)
-			continue
+		// every file of the namespace gets a tear choice for its unsynced data; the choices of the
+		// files are enumerated together (at most two files exist here: the target and a temporary)
+		var names []string
+		for p := range ns {
+			names = append(names, p)
 		}
-		n := inodes[id]
-		cuts := map[int]bool{0: true, len(n.pending): true}
-		if len(n.pending) > 1 {
-			cuts[1], cuts[len(n.pending)/2], cuts[len(n.pending)-1] = true, true, true
+		sort.Strings(names)
+		cutsOf := func(n *ino) []int {
+			cuts := map[int]bool{0: true, len(n.pending): true}
+			if len(n.pending) > 1 {
+				cuts[1], cuts[len(n.pending)/2], cuts[len(n.pending)-1] = true, true, true
+			}
+			var out []int
+			for c := range cuts {
+				out = append(out, c)
+			}
+			sort.Ints(out)
+			return out
 		}
-		for c := range cuts {
-			emit(fmt.Sprintf("%s, %d of %d unsynced bytes reached the disk", opDesc, c, len(n.pending)), true, append(append([]byte(nil), n.durable...), n.pending[:c]...))
+		var rec func(i int, disk map[string][]byte, desc string)
+		rec = func(i int, disk map[string][]byte, desc string) {
+			if i == len(names) {
+				c, ok := disk[path]
+				cp := map[string][]byte{}
+				for k, v := range disk {
+					cp[k] = v
+				}
+				emit(opDesc+desc, ok, c, cp)
+				return
+			}
+			n := inodes[ns[names[i]]]
+			for _, c := range cutsOf(n) {
+				disk[names[i]] = append(append([]byte(nil), n.durable...), n.pending[:c]...)
+				d := desc
+				if len(n.pending) > 0 {
+					d += fmt.Sprintf(", %s: %d of %d unsynced bytes on disk", filepath.Base(names[i]), c, len(n.pending))
+				}
+				rec(i+1, disk, d)
+			}
+			delete(disk, names[i])
 		}
+		rec(0, map[string][]byte{}, "")
 	}
 }
 
@@ -500,9 +555,10 @@ func crashUsers(rep *report.Report) {
 				wantA = normalise(A)
 			}
 			wantB := normalise(B)
-			crashStates(initial, log.Ops, file, func(desc string, exists bool, content []byte) {
+			crashStates(initial, log.Ops, file, func(desc string, exists bool, content []byte, disk map[string][]byte) {
 				rep.Count(1)
 				rep.Seen(fmt.Sprintf("%d>%d %s", ai, bi, desc))
+				defer stage2Users(rep, file, disk, tables, fmt.Sprintf("flush of table %d over table %d, crash %s", bi, ai, desc))
 				os.Remove(file)
 				if exists {
 					os.WriteFile(file, content, 0o644)
@@ -531,6 +587,52 @@ func crashUsers(rep *report.Report) {
 		}
 	}
 	os.Remove(file)
+}
+
+// stage2Users: after the crash the server restarts on whatever is on disk (including a leftover
+// temporary file) and later flushes another table without crashing: a restart must then load
+// exactly that table.
+func stage2Users(rep *report.Report, file string, disk map[string][]byte, tables []tableU, what string) {
+	for ci, C := range tables {
+		if C == nil {
+			continue
+		}
+		log := vos.Install(disk)
+		var users []*auth.User
+		for _, m := range C {
+			users = append(users, &auth.User{Name: m.Name, Password: m.Password, Admin: m.Admin, PushAccess: m.Push, PullAccess: m.Pull})
+		}
+		err := auth.JSON.Flush(users, users, nil)
+		vos.Uninstall()
+		rep.Count(1)
+		if err != nil {
+			rep.Violation("crash-then-flush flush-error", what+": "+err.Error(), nil)
+			continue
+		}
+		final := log.Snapshot()[file]
+		os.WriteFile(file, final, 0o644)
+		var got []mu
+		pan := ""
+		func() {
+			defer func() {
+				if r := recover(); r != nil {
+					pan = fmt.Sprint(r)
+				}
+			}()
+			auth.Reset(auth.JSON)
+			got = usersNow()
+		}()
+		if pan != "" || keyU(got) != keyU(normalise(C)) {
+			rep.Violation("crash-then-flush later-flush-not-loadable", fmt.Sprintf("%s; then a complete flush of table %d: restart gives %v (%s), file holds %q", what, ci, got, pan, trunc2(string(final), 200)), map[string]interface{}{"first": what, "second_table": ci})
+		}
+	}
+}
+
+func trunc2(s string, n int) string {
+	if len(s) > n {
+		return s[:n] + "…"
+	}
+	return s
 }
 
 func classify(exists bool, content, full []byte) string {
@@ -593,7 +695,7 @@ func crashRoutes(rep *report.Report) {
 				rep.Violation("crash flush-error", err.Error(), nil)
 				continue
 			}
-			crashStates(initial, log.Ops, file, func(desc string, exists bool, content []byte) {
+			crashStates(initial, log.Ops, file, func(desc string, exists bool, content []byte, disk map[string][]byte) {
 				rep.Count(1)
 				rep.Seen(fmt.Sprintf("routes %d>%d %s", ai, bi, desc))
 				os.Remove(file)
